@@ -2,11 +2,12 @@
 import lanes
 import lanewords
 from props import c01_slane
+from props import c02_mainq
 
 PROPERTIES_FILE = "Properties/Properties_C02.v"
-COQ_DEPS = ["Proofs/Lane_iface.vo", "Proofs/SLane_progress.vo", "Proofs/SLane_measure.vo", "Proofs/SLane_realtime.vo"] + ["Model/LaneWords.vo"] + list(c01_slane.COQ_DEPS)
-EXTRA_PROPERTIES_FILES = ["Properties/Properties_C02_slane.v", c01_slane.PROPERTIES_FILE]
-GEN_MODULES = ["Gen_dqstate", "Gen_lanesites", "Gen_once", "Gen_fields"]
+COQ_DEPS = ["Proofs/Lane_iface.vo", "Proofs/SLane_progress.vo", "Proofs/SLane_measure.vo", "Proofs/SLane_realtime.vo"] + ["Model/LaneWords.vo"] + list(c01_slane.COQ_DEPS) + list(c02_mainq.COQ_DEPS)
+EXTRA_PROPERTIES_FILES = ["Properties/Properties_C02_slane.v", c01_slane.PROPERTIES_FILE, c02_mainq.PROPERTIES_FILE]
+GEN_MODULES = ["Gen_dqstate", "Gen_lanesites", "Gen_once", "Gen_fields", "Gen_mainq"]
 LEVEL = "proof"
 TRUSTED = [
     "PARTIAL: (a) word-level theorems about the dq_state transition bodies / atomic site lists translated from the source on every "
@@ -28,8 +29,12 @@ ASSUMPTIONS += list(c01_slane.ASSUMPTIONS)
 def correspond(ctx):
     return lanes.merge([lanes.run_part("lanes", lambda c: lanes.run(c, "C02"), ctx),
                         lanes.run_part("words", lambda c: lanewords.run(c, "C02"), ctx),
-                        lanes.run_part("slane", lambda c: c01_slane.correspond(c, tag="c02_slane"), ctx)])
+                        lanes.run_part("slane", lambda c: c01_slane.correspond(c, tag="c02_slane"), ctx),
+                        lanes.run_part("mainq", c02_mainq.correspond, ctx)])
 
 
 def replay(ctx, obj):
-    return lanes.replay_parts(ctx, obj, {"lanes": lanes.replay, "slane": c01_slane.replay})
+    return lanes.replay_parts(ctx, obj, {"lanes": lanes.replay, "slane": c01_slane.replay, "mainq": c02_mainq.replay})
+
+TRUSTED += ["main queue (Properties_C02_mainq.v, lib/props/c02_mainq.py): " + t for t in c02_mainq.TRUSTED]
+ASSUMPTIONS += list(c02_mainq.ASSUMPTIONS)
